@@ -1253,7 +1253,7 @@ struct LoadObs {
     family: &'static str,
 }
 
-fn stage_loads(ctx: &Ctx, o: &mut Outcome, layouts: &[Layout], obs: &[LoadObs], with_binary: &dyn Fn(usize) -> bool) -> Vec<Option<String>> {
+fn stage_loads(ctx: &Ctx, o: &mut Outcome, layouts: &[Layout], obs: &[LoadObs], with_binary: &dyn Fn(usize) -> u8) -> Vec<Option<String>> {
     let mut api_answers: Vec<Option<String>> = vec![];
     // API
     let cases: Vec<Value> = obs
@@ -1285,7 +1285,8 @@ fn stage_loads(ctx: &Ctx, o: &mut Outcome, layouts: &[Layout], obs: &[LoadObs], 
         o.push("corr", "cfg.loadall", format!("cfg.loadall {}", l.load_args(b.file_dir.as_deref(), &b.opts)), expect, desc, !all_config_files(l).is_empty());
     }
     // the binary: `--print-config current <file>` and `-v --check <file>` (which file was used)
-    let jobs: Vec<(usize, bool)> = (0..obs.len()).filter(|i| obs[*i].file_dir.is_some() && with_binary(*i)).flat_map(|i| [(i, false), (i, true)]).collect();
+    // with_binary: 0 = API only, 1 = `--print-config current` and `-v --check`, 2 = `--print-config current` only
+    let jobs: Vec<(usize, bool)> = (0..obs.len()).filter(|i| obs[*i].file_dir.is_some() && with_binary(*i) > 0).flat_map(|i| if with_binary(i) == 1 { vec![(i, false), (i, true)] } else { vec![(i, false)] }).collect();
     let runs: Vec<cli::Ran> = par_map(&jobs, |(i, verbose)| {
         let b = &obs[*i];
         let l = &layouts[b.layout];
@@ -1345,6 +1346,7 @@ fn stage_loads(ctx: &Ctx, o: &mut Outcome, layouts: &[Layout], obs: &[LoadObs], 
                 bin_err_kind(r)
             };
             o.count("load-bin:print-config");
+            o.count(&format!("load-bin-result:{}:{}", b.family, if r.code == Some(0) { "printed" } else { expect.split(':').take(2).collect::<Vec<_>>().join(":").leak() }));
             o.push("corr", "cfg.loadtoml", format!("cfg.loadtoml {}", args), expect, desc, !all_config_files(l).is_empty());
         }
     }
@@ -1426,6 +1428,66 @@ fn stage_stable(ctx: &Ctx, o: &mut Outcome, layouts: &[Layout], obs: &[LoadObs])
         }
         o.push("corr", "cfg.loadtoml", format!("cfg.loadtoml {}", l.load_args_ch(Some(dir), &b.opts, false)), expect, desc, !all_config_files(l).is_empty());
     }
+}
+
+/// the dedicated flags of the command line x a file that sets the same options
+fn gen_flags(ctx: &Ctx, base: &Path, first_layout: usize) -> (Vec<Layout>, Vec<LoadObs>) {
+    let file_all: Vec<Tv> = vec![
+        ctx.tv("emit_mode", "Json"), ctx.tv("color", "Never"), ctx.tv("make_backup", "true"), ctx.tv("verbose", "Verbose"), ctx.tv("skip_children", "true"),
+        ctx.tv("error_on_unformatted", "true"), ctx.tv("print_misformatted_file_names", "true"), ctx.tv("unstable_features", "true"), ctx.tv("edition", "2018"), ctx.tv("style_edition", "2021"),
+    ];
+    let files: Vec<Vec<Tv>> = vec![vec![], file_all.clone(), file_all.iter().step_by(2).cloned().collect()];
+    let mut layouts = vec![];
+    let mut obs = vec![];
+    for (fi, content) in files.into_iter().enumerate() {
+        let root = base.join(format!("g{}", fi));
+        let dir = root.join("t");
+        let src = dir.join("f0.rs");
+        let l = Layout { root: root.clone(), dirs: vec![DirSpec { path: dir.clone(), dotted: Slot::File(0), plain: Slot::Absent }], contents: vec![content], home: root.join("_home"), xdg: None, sources: vec![(src.clone(), 0)], extra: vec![] };
+        let li = first_layout + layouts.len();
+        layouts.push(l);
+        let mut push = |f: &dyn Fn(&mut Opts)| {
+            let mut oo = Opts::default();
+            f(&mut oo);
+            obs.push(LoadObs { layout: li, file_dir: Some(dir.clone()), opts: oo, family: "dedicated-flags" });
+        };
+        push(&|_| {});
+        push(&|o| o.api.verbose = true);
+        push(&|o| o.api.quiet = true);
+        push(&|o| o.api.check = true);
+        push(&|o| o.api.backup = true);
+        push(&|o| o.api.files_with_diff = true);
+        push(&|o| o.api.unstable = true);
+        for m in ["Files", "Stdout", "Coverage", "Checkstyle", "Json"] {
+            push(&|o| o.api.emit = Some(m.to_string()));
+        }
+        for c in ["Always", "Never", "Auto"] {
+            push(&|o| o.api.color = Some(c.to_string()));
+        }
+        push(&|o| { o.api.unstable = true; o.api.skip_children = Some(true); });
+        push(&|o| { o.api.unstable = true; o.api.error_on_unformatted = Some(true); });
+        let fl = format!("[{{\"file\":\"{}\",\"range\":[1,2]}}]", src.display());
+        push(&|o| { o.api.unstable = true; o.api.file_lines = Some(fl.clone()); });
+        push(&|o| { o.api.check = true; o.api.backup = true; o.api.files_with_diff = true; o.api.verbose = true; });
+        push(&|o| { o.api.quiet = true; o.api.emit = Some("Json".into()); o.api.color = Some("Never".into()); o.api.edition = Some("2021".into()); o.api.style_edition = Some("2024".into()); });
+        // a --config pair for an option that a flag sets too: the pair is applied last
+        for (k, v) in [("emit_mode", "Files"), ("emit_mode", "Checkstyle"), ("color", "Always"), ("make_backup", "false"), ("verbose", "Quiet"), ("skip_children", "false"), ("print_misformatted_file_names", "false"), ("unstable_features", "true")] {
+            let t = ctx.tv(k, v);
+            let t2 = t.clone();
+            push(&move |o| { *o = std::mem::take(o).with_inline(vec![t.clone()]); });
+            push(&move |o| {
+                *o = std::mem::take(o).with_inline(vec![t2.clone()]);
+                o.api.check = true;
+                o.api.backup = true;
+                o.api.verbose = true;
+                o.api.files_with_diff = true;
+                o.api.color = Some("Never".into());
+                o.api.unstable = true;
+                o.api.skip_children = Some(true);
+            });
+        }
+    }
+    (layouts, obs)
 }
 
 /// style_edition / version / edition: every combination in the file x a list of command lines
@@ -1863,13 +1925,22 @@ pub fn run(tier: &str, seed: u64, out: &Path) -> i32 {
     }
     // the missing-directory and no-directory families have no source file: API only
     let (with_file, api_only): (Vec<LoadObs>, Vec<LoadObs>) = obs.into_iter().partition(|b| b.file_dir.as_ref().map(|d| layouts[b.layout].sources.iter().any(|(p, _)| p.parent() == Some(d.as_path()))).unwrap_or(false));
-    stage_loads(&ctx, &mut o, &layouts, &with_file, &|_| true);
-    stage_loads(&ctx, &mut o, &layouts, &api_only, &|_| false);
+    stage_loads(&ctx, &mut o, &layouts, &with_file, &|_| 1);
+    stage_loads(&ctx, &mut o, &layouts, &api_only, &|_| 0);
 
     // the stable channel (binary only: the channel is a compile-time constant)
     {
         let n_stable = if thorough { with_file.len() } else { with_file.len().min(160) };
         stage_stable(&ctx, &mut o, &layouts, &with_file[with_file.len() - n_stable..]);
+    }
+
+    // the dedicated flags
+    {
+        let (fl, fobs) = gen_flags(&ctx, &lay, 0);
+        for l in &fl {
+            l.materialise();
+        }
+        stage_loads(&ctx, &mut o, &fl, &fobs, &|_| 2);
     }
 
     // style_edition / version / edition precedence
@@ -1878,7 +1949,7 @@ pub fn run(tier: &str, seed: u64, out: &Path) -> i32 {
         let idx: Vec<usize> = (0..pl.len()).collect();
         par_map(&idx, |i| pl[*i].materialise());
         let stride = if thorough { 1 } else { 6 };
-        let answers = stage_loads(&ctx, &mut o, &pl, &pobs, &|i| i % stride == 0);
+        let answers = stage_loads(&ctx, &mut o, &pl, &pobs, &|i| (i % stride == 0) as u8);
         // one of the three options alone: from the file (no flag) and from --config (empty file) — all fields equal
         let fields = |a: &Option<String>| a.as_ref().and_then(|x| x.split_once(';').map(|y| y.1.to_string()));
         let find = |n: usize, ci: usize| pindex.iter().position(|x| *x == (n, ci)).and_then(|i| fields(&answers[i]));
